@@ -323,8 +323,10 @@ def find_sinks(b, tr):
         if not roots:
             continue
         if m in ALLOC and ("Vec" in c.path or "String" in c.path or "BytesMut" in c.path or "vec::" in c.path or "VecDeque" in c.path or "HashMap" in c.path):
-            out.append({"kind": "alloc:" + m, "roots": roots, "bb": c.bb, "line": c.line, "need": [{"ub"}, {"ublen"}],
-                        "desc": "allocation sized by a client-supplied number (%s)" % c.path})
+            # the property bounds memory by the bytes *received*, not by a constant: the size must be below a
+            # runtime length of the input (ublen), a constant cap (ub) alone still lets 14 bytes reserve 512 MB
+            out.append({"kind": "alloc:" + m, "roots": roots, "bb": c.bb, "line": c.line, "need": [{"ublen"}],
+                        "desc": "allocation sized by a client-supplied number (%s) that is not bounded by the number of bytes received" % c.path})
         elif m in ("index", "index_mut", "get_unchecked", "slice_index_order_fail") and ("Index" in c.path or "slice" in c.path):
             out.append({"kind": "slice-index", "roots": roots, "bb": c.bb, "line": c.line, "need": [{"ublen"}],
                         "desc": "slice indexed by a client-supplied number"})
